@@ -10,7 +10,7 @@
        (reported for read-only operations).
    [agrees]: the tagged-heap model predicts exactly these observations.
    [C07_ok]: the property, evaluated on the observation alone. *)
-From SC Require Import Base.Prelude Alias.Owned.
+From SC Require Import Base.Prelude Alias.Owned Alias.Nested.
 
 Inductive icode :=
 | INone
@@ -25,9 +25,14 @@ Inductive icode :=
 | IRemoveV0 (f key name : Z)
 | ITotals (fdir fenter fleave enter_code leave_code : Z)
 | IMeta (f key : Z) (realloc : bool)
-| IMetaV0 (f key : Z) (realloc : bool).
+| IMetaV0 (f key : Z) (realloc : bool)
+| IMetaSliceClone (f key : Z).      (* seeded change C07-r3-2 *)
 
 Inductive scode := SId | SClear (fs : list Z) | SClearV0 (fs : list Z).
+
+(* model-level reads: the assembled response (openclosepb GetPositions) with the mask applied to a
+   clone (the code) or in place (before 2246d41 / seeded change C07-r3-3) *)
+Inductive rcode := RAsm (f : Z) (rm : option nmask) | RAsmV0 (f : Z) (rm : option nmask).
 
 Inductive cop :=
 | CWrite (id : Z) (arg : list cell) (vis : bool) (um : option (list Z)) (m : wmode) (ib ia : icode)
@@ -35,7 +40,8 @@ Inductive cop :=
 | CGet (id : Z) (rm : option (list Z))
 | CList (rm : option (list Z))
 | CPull (rm : option (list Z)) (updates_only : bool) (hook : scode)
-| CMutArg (k : nat) (snap : Z).
+| CMutArg (k : nat) (snap : Z)
+| CRead (r : rcode).
 
 Definition fuel : nat := 12%nat.
 
@@ -54,7 +60,10 @@ Definition icode_fun (c : icode) : ifun :=
   | ITotals a b c d e => i_totals a b c d e
   | IMeta f key realloc => i_meta fuel f key realloc
   | IMetaV0 f key realloc => i_meta_v0 fuel f key realloc
+  | IMetaSliceClone f key => i_meta_slice_clone fuel f key
   end.
+Definition rcode_fun (c : rcode) : rfun :=
+  match c with RAsm f rm => r_assembled fuel f rm | RAsmV0 f rm => r_assembled_v0 fuel f rm end.
 Definition scode_fun (c : scode) : sfun :=
   match c with SId => seed_id | SClear fs => seed_clear fuel fs | SClearV0 fs => seed_clear_v0 fs end.
 
@@ -66,6 +75,7 @@ Definition cop_op (c : cop) : op :=
   | CList rm => OList rm
   | CPull rm uo h => OPull rm uo (scode_fun h)
   | CMutArg k _ => OMutArg k
+  | CRead r => ORead (rcode_fun r)
   end.
 
 (* observation after one operation *)
@@ -80,7 +90,7 @@ Definition store_changed (st st' : state) : bool :=
   existsb (fun p => negb (same fuel (hp (hs st)) (hp (hs st')) (snd p) (snd p))) (store st).
 
 Definition is_read (c : cop) : bool :=
-  match c with CGet _ _ | CList _ | CPull _ _ _ => true | _ => false end.
+  match c with CGet _ _ | CList _ | CPull _ _ _ | CRead _ => true | _ => false end.
 
 Definition model_obs (st : state) (c : cop) : state * obs1 :=
   let st' := step fuel st (cop_op c) in
